@@ -92,15 +92,51 @@ inline void runC10ws(Ctx &c)
                     continue;
                 }
                 std::vector<int> wsh{rig.env->newWorkspace(), rig.env->newWorkspace()};
+                VectorXd lastX[2];
+                bool lastThree[2] = {true, true};
+                int lastWs[2] = {-1, -1};
                 uint64_t hh = 0;
                 const int len = r.range(5, thorough ? 40 : 20);
                 for (int step = 0; step < len && !c.case_failed; ++step)
                 {
                     int k = r.range(0, 1);
-                    int op = r.range(0, 5);
+                    int op = r.range(0, 6);
+                    if (op == 6 && lastX[k].size() > 0)
+                    {
+                        // the same decision vector again after the data that are NOT part of it changed (pinned boundary
+                        // states / end points, start time), same segment count, same workspace
+                        OptCase n2 = genOptCase(r, order, dim, cfg[k].ref.N, combo);
+                        cfg[k].ref.bc = n2.ref.bc;
+                        cfg[k].ref.t0 = n2.ref.t0;
+                        cfg[k].ref.P.row(0) = n2.ref.P.row(0);
+                        cfg[k].ref.P.row(cfg[k].ref.N) = n2.ref.P.row(cfg[k].ref.N);
+                        if (r.coin())
+                            cfg[k].rho = r.coin() ? 0.0 : r.uni(0.05, 1.0);
+                        if (!initOne(k))
+                        {
+                            c.require("C10.reference_state_accepted", false, okey(cfg[k], "setup"));
+                            break;
+                        }
+                        EvalOpts eo;
+                        eo.threeCosts = lastThree[k];
+                        eo.ws = lastWs[k];
+                        EvalResult got;
+                        got.cost = opts[k]->evaluate(lastX[k], got.grad, cfg[k].prog, eo);
+                        auto s2 = eo.ws < 0 ? opts[k]->optimalSpline() : rig.env->wsSpline(eo.ws);
+                        got.coeffs = s2->coeffs();
+                        got.T = s2->timeSegments();
+                        trace.push_back("opt" + std::to_string(k) + ".reinit_non_x_data + evaluate(same x)");
+                        EvalResult fresh = evalFreshFull(cfg[k], lastX[k], eo.threeCosts);
+                        c.require("C10.reused_workspace_equals_fresh_bitwise", sameResult(got, fresh), okey(cfg[k], "workspace_history"), "after step " + std::to_string(step) + ": " + trace.back());
+                        c.event("op.same_x_new_fixed_data");
+                        c.event("shadow_comparisons");
+                        continue;
+                    }
+                    if (op == 6)
+                        op = 2;
                     if (op == 0)
                     {
-                        OptCase n2 = genOptCase(r, order, dim, r.coin(0.7) ? walk[(wpos++) % 10] : r.range(1, 10), combo);
+                        OptCase n2 = genOptCase(r, order, dim, r.coin(0.35) ? cfg[k].ref.N : (r.coin(0.7) ? walk[(wpos++) % 10] : r.range(1, 10)), combo);
                         n2.userTm = n2.userSm = false;
                         cfg[k] = n2;
                         if (!initOne(k))
@@ -110,6 +146,7 @@ inline void runC10ws(Ctx &c)
                         }
                         trace.push_back("opt" + std::to_string(k) + ".setInitState N=" + std::to_string(n2.ref.N));
                         hh = mix64(hh, hashOptCase(n2));
+                        lastX[k].resize(0);
                         continue;
                     }
                     OptRig view;
@@ -131,6 +168,9 @@ inline void runC10ws(Ctx &c)
                     }
                     EvalResult got;
                     got.cost = opts[k]->evaluate(x, got.grad, cfg[k].prog, eo);
+                    lastX[k] = x;
+                    lastThree[k] = three;
+                    lastWs[k] = eo.ws;
                     auto s = w < 0 ? opts[k]->optimalSpline() : rig.env->wsSpline(eo.ws);
                     got.coeffs = s->coeffs();
                     got.T = s->timeSegments();
